@@ -64,6 +64,11 @@ def main():
     notes = os.path.join(src, 'notes.md')
     if os.path.exists(notes):
         shutil.copy(notes, os.path.join(dest, 'agent_notes.md'))
+    if '--confirm-only' in sys.argv:
+        with open(os.path.join(dest, 'meta.json'), 'w') as f:
+            json.dump(meta, f, indent=1)
+        print(json.dumps(meta, indent=1)[:1500])
+        return 0
     if meta['confirmed'] and scratch_mode:
         sc = '/var/tmp/seed-scratch-%s' % sid
         sh('rm -rf %s; mkdir -p %s; git -C /repo archive HEAD | tar -x -C %s' % (sc, sc, sc))
